@@ -3,6 +3,7 @@ import posixpath, itertools, json, os
 import vlib
 
 NOTE = None
+DOMAIN = {"in": 0, "out": 0, "real_in": 0, "real_out": 0}
 
 
 def gen_text(name, imports, docs, body):
@@ -99,6 +100,15 @@ def public_entry_points(ctx):
     total = orders = 0
     for env in (None, "$ROOT/abs/out", "rel/out/../out"):
         types, dod = uni.describe(binary, root, env)
+        if env is None:
+            # the REAL generated texts (export_to_string of every exportable type of the universe) lie in the theorems' domain
+            real_texts = [(t["ident"], t["text"]["ok"]) for t in types if t["output_path"] and isinstance(t.get("text"), dict) and "ok" in t["text"]]
+            dom = vlib.run_model([{"op": "gen_ok", "name": n, "text": x} for n, x in real_texts]) or []
+            for (n, x), d in zip(real_texts, dom):
+                inside = d.get("parts") and d.get("ok") and d.get("same_text") and (d.get("decl_name") or "").split("<")[0] == n
+                DOMAIN["real_in" if inside else "real_out"] += 1
+                if not inside:
+                    ctx.broken.append(f"export_to_string of {n} is outside the domain of C05_history_canonical (GenOK): {json.dumps(d)} {json.dumps(x)[:300]}")
         sharers = [i for i, t in enumerate(types) if t["output_path"] and posixpath.normpath(t["output_path"]) == "shared.ts"]
         names = [types[i]["name"] for i in sharers]
         hists, metas = [], []
@@ -131,8 +141,9 @@ def public_entry_points(ctx):
                 break
     ctx.stream("shared file through the public entry points", total, orders,
                "the five types of the compiled universe that share `shared.ts` (one spelled `dots/../shared.ts`) exported in random orders through export / export_all / "
-               "export_all_to, default directory unset / absolute / relative with `..`; oracle: exactly one shared.ts holding every declaration once; model = implementation",
-               [], {})
+               "export_all_to, default directory unset / absolute / relative with `..`; oracle: exactly one shared.ts holding every declaration once; model = implementation; "
+               "plus: every real export_to_string text of the universe evaluated against the domain predicate of C05_history_canonical (GenOK, via the driver)",
+               [], {"theorem_domain": dict(DOMAIN)})
 
 
 def run(ctx):
@@ -150,6 +161,16 @@ def run(ctx):
         for si, gens in enumerate(sets):
             hs = histories(ctx, gens, root, stale=(si % 2 == 1))
             cases = [{k: v for k, v in h.items() if k != "_perm"} for h in hs]
+            # is every text of the set inside the domain of the history theorems (GenOK)? (a set built with a listed defect shape has
+            # exactly that text outside: the two open findings are the two ways to violate BlockOK)
+            dom = vlib.run_model([{"op": "gen_ok", "name": g["name"], "text": g["text"]} for g in gens]) or []
+            for g, d in zip(gens, dom):
+                inside = d.get("parts") and d.get("ok") and d.get("same_text") and d.get("decl_name") == g["name"]
+                DOMAIN["in" if inside else "out"] += 1
+                if not inside and g["shape"] not in BAD_SHAPES:
+                    ctx.broken.append(f"a generated text of shape `{g['shape']}` is outside the domain of C05_history_canonical (GenOK): {json.dumps(d)} {json.dumps(g['text'])[:200]}")
+                if inside and g["shape"] in BAD_SHAPES:
+                    ctx.broken.append(f"a text with the defect shape `{g['shape']}` is inside the theorem's domain: the domain predicate does not separate the findings")
             real = vlib.run_real(binary, cases)
             model = vlib.run_model(cases)
             dis = vlib.compare(ctx, f"export_and_merge histories ({'out-of-domain' if bad else 'WF'} set {si})", cases, real, model, canon)
